@@ -2,7 +2,7 @@
    Statements only; proofs are in Proofs/DERProofs.v and Proofs/KeyFmtProofs.v.
    The theorems are about the codec / armour / container layer of the model (Model/DER.v,
    Model/KeyFmt.v); ciphers, KDFs and the key mathematics are parameters. *)
-From AV Require Import Base.Prelude Model.DER Model.KeyFmt Proofs.DERProofs.
+From AV Require Import Base.Prelude Model.DER Model.KeyFmt Proofs.DERProofs Proofs.KeyFmtProofs.
 
 (* der_decode (der_encode v) = v for every value of the universe of asn1.py that the encoder accepts,
    except the deviations excluded by [good] (each refuted separately below): tag number 31,
@@ -48,9 +48,197 @@ Theorem C15_der_canonical_refuted : exists d v, good v = true /\ der_decode d = 
 Proof. exact decoder_not_canonical. Qed.
 Print Assumptions C15_der_canonical_refuted.
 
+(* ---- base64 and line folding ---- *)
+
+(* a2b_base64 (b2a_base64 data) = data for every byte string *)
+Theorem C15_base64_roundtrip : forall data, Forall is_byte data -> a2b (b2a data) = Some data.
+Proof. exact a2b_b2a. Qed.
+Print Assumptions C15_base64_roundtrip.
+
+(* ... and for every text obtained from the encoding by inserting characters outside the alphabet
+   anywhere (line folding at any width, CR LF, indentation, trailing blanks) *)
+Theorem C15_base64_armour_roundtrip : forall data s,
+  Forall is_byte data -> filter b64_relevant s = b2a data -> a2b s = Some data.
+Proof. exact a2b_b2a_with_junk. Qed.
+Print Assumptions C15_base64_armour_roundtrip.
+
+(* in particular for the folding done by wrap_base64 at any line width *)
+Theorem C15_base64_folded_roundtrip : forall data wrap k,
+  Forall is_byte data -> a2b (fold_lines wrap k (b2a data)) = Some data.
+Proof. exact a2b_folded. Qed.
+Print Assumptions C15_base64_folded_roundtrip.
+
+(* ---- armour and format sniffing ---- *)
+
+(* A PEM block written by wrap_base64 (any data, any line width, any key type such as
+   "PRIVATE KEY"/"PUBLIC KEY", PEM name absent or a blank-free word such as RSA, EC, OPENSSH,
+   ENCRYPTED) is found by _match_next, its footer is located and the content decodes to the original
+   bytes with the PEM name recovered.  (Blocks with Proc-Type/DEK-Info headers and RFC 4716 blocks are
+   covered by the correspondence only.) *)
+Theorem C15_pem_armour_roundtrip : forall known name keytype data wrap public,
+  Forall is_byte data -> no_nl keytype ->
+  match name with Some n => no_ws n = true /\ n <> [] | None => True end ->
+  match_next known (wrap_base64 data (pem_block_type name keytype) [] false wrap) keytype public =
+  FPem (match name with Some n => n | None => [] end) [] data [].
+Proof. exact pem_roundtrip. Qed.
+Print Assumptions C15_pem_armour_roundtrip.
+
+(* The one-line OpenSSH public format: algorithm, blob and comment are read back, for every comment
+   that contains no newline and neither starts nor ends with a blank. *)
+Theorem C15_openssh_public_line_roundtrip : forall known alg a0 alg' blob comment,
+  alg = a0 :: alg' -> a0 <> 45 -> a0 <> 48 -> no_ws alg = true -> known alg = true ->
+  Forall is_byte blob -> blob <> [] ->
+  match comment with Some c => comment_survives_line c | None => True end ->
+  match_next known (export_openssh_public alg blob comment) PUBLIC_KEY true = FOpenSSH alg comment blob [].
+Proof. exact openssh_public_line_roundtrip. Qed.
+Print Assumptions C15_openssh_public_line_roundtrip.
+
+(* "comments of any bytes" does not hold for the text formats: a newline truncates the comment (the
+   rest becomes another line of the file), a leading blank is dropped, and an RFC 4716 block with a
+   newline in its comment is not importable at all. *)
+Theorem C15_public_comment_any_bytes_refuted :
+  (exists alg blob c c' rest, c <> c' /\
+     match_next (fun _ => true) (export_openssh_public alg blob (Some c)) PUBLIC_KEY true =
+     FOpenSSH alg (Some c') blob rest) /\
+  (exists blob c, match_next (fun _ => true) (export_rfc4716 blob (Some c)) PUBLIC_KEY true = FErr ImportErr).
+Proof.
+  split.
+  - exists [115; 115; 104], [1; 2; 3], [97; 10; 98], [97], [98; 10]. split; [discriminate|].
+    exact openssh_public_comment_newline_not_preserved.
+  - exists [1; 2; 3], [97; 10; 98]. exact rfc4716_comment_newline_not_importable.
+Qed.
+Print Assumptions C15_public_comment_any_bytes_refuted.
+
+(* ---- openssh-key-v1 container ---- *)
+
+(* Export then import of an unencrypted container returns the same key parameters and the same
+   comment for EVERY comment byte string, every 4-byte check value, every public blob.  Premise: the
+   key handler reads back its own encoding and leaves the following bytes alone. *)
+Theorem C15_openssh_container_roundtrip :
+  forall (params : Type) (enc_priv : params -> bytes) (dec_priv : bytes -> option (params * bytes))
+         cipher_known block_size kdf encrypt decrypt,
+  (forall p rest, dec_priv (enc_priv p ++ rest) = Some (p, rest)) ->
+  forall check p comment pub,
+  length check = 4%nat -> zlen comment < 2 ^ 32 -> zlen pub < 2 ^ 32 ->
+  zlen (openssh_pad 8 (check ++ check ++ enc_priv p ++ sshstring comment)) < 2 ^ 32 ->
+  openssh_decode params dec_priv cipher_known kdf decrypt
+    (openssh_encode params enc_priv block_size kdf encrypt check p comment pub None) None = OOk (p, comment).
+Proof. exact openssh_container_roundtrip. Qed.
+Print Assumptions C15_openssh_container_roundtrip.
+
+(* The same with a cipher, for every cipher/KDF satisfying decrypt k (encrypt k x) = x. *)
+Theorem C15_openssh_container_roundtrip_encrypted :
+  forall (params : Type) (enc_priv : params -> bytes) (dec_priv : bytes -> option (params * bytes))
+         cipher_known block_size kdf encrypt decrypt,
+  (forall p rest, dec_priv (enc_priv p ++ rest) = Some (p, rest)) ->
+  (forall alg k d, decrypt alg k (fst (encrypt alg k d)) (snd (encrypt alg k d)) = Some d) ->
+  forall check p comment pub alg pass salt rounds,
+  length check = 4%nat -> zlen comment < 2 ^ 32 -> zlen pub < 2 ^ 32 ->
+  zlen alg < 2 ^ 32 -> zlen salt < 2 ^ 32 - 8 -> 0 <= rounds < 2 ^ 32 ->
+  cipher_known alg = true -> zlist_eqb alg NONE_ = false -> 0 < block_size alg <= 255 ->
+  (let plain := openssh_pad (Z.max (block_size alg) 8) (check ++ check ++ enc_priv p ++ sshstring comment) in
+   zlen (fst (encrypt alg (kdf alg pass rounds salt) plain)) < 2 ^ 32) ->
+  openssh_decode params dec_priv cipher_known kdf decrypt
+    (openssh_encode params enc_priv block_size kdf encrypt check p comment pub (Some (alg, pass, salt, rounds)))
+    (Some pass) = OOk (p, comment).
+Proof. exact openssh_container_roundtrip_encrypted. Qed.
+Print Assumptions C15_openssh_container_roundtrip_encrypted.
+
+(* differing check integers are rejected *)
+Theorem C15_openssh_check_mismatch_rejected :
+  forall (params : Type) (dec_priv : bytes -> option (params * bytes)) encrypted c1 c2 rest,
+  length c1 = 4%nat -> length c2 = 4%nat -> undigits 256 c1 <> undigits 256 c2 ->
+  openssh_private_section params dec_priv encrypted (c1 ++ c2 ++ rest) =
+  OErr (if encrypted then OEncryptionErr else OImportErr).
+Proof. exact openssh_check_mismatch_rejected. Qed.
+Print Assumptions C15_openssh_check_mismatch_rejected.
+
+(* padding other than 1,2,3,... or of 256 bytes and more is rejected *)
+Theorem C15_openssh_bad_padding_rejected :
+  forall (params : Type) (enc_priv : params -> bytes) (dec_priv : bytes -> option (params * bytes)),
+  (forall p rest, dec_priv (enc_priv p ++ rest) = Some (p, rest)) ->
+  forall encrypted check p comment pad,
+  length check = 4%nat -> zlen comment < 2 ^ 32 ->
+  pad <> count_from 1 (length pad) \/ 256 <= zlen pad ->
+  openssh_private_section params dec_priv encrypted (check ++ check ++ enc_priv p ++ sshstring comment ++ pad) =
+  OErr OImportErr.
+Proof.
+  intros params enc_priv dec_priv H.
+  exact (openssh_bad_padding_rejected params enc_priv dec_priv (fun _ => false) (fun _ => 8)
+           (fun _ _ _ _ => []) (fun _ _ d => (d, [])) (fun _ _ d _ => Some d) H).
+Qed.
+Print Assumptions C15_openssh_bad_padding_rejected.
+
+(* Wrong passphrase, partial: whatever the cipher returns under the wrong key - nothing (MAC/tag
+   failure) or a plaintext whose two check integers differ - the import fails with
+   KeyEncryptionError.  Missing for the full statement: that a wrong key makes the cipher return one
+   of the two (a property of the cipher/KDF, outside the model); with probability 2^-32 per wrong
+   passphrase an unauthenticated cipher yields equal check integers. *)
+Theorem C15_openssh_wrong_passphrase_rejected_partial :
+  forall (params : Type) (dec_priv : bytes -> option (params * bytes)) cipher_known kdf decrypt
+         alg salt rounds pub data mac pass',
+  zlen alg < 2 ^ 32 -> zlen salt < 2 ^ 32 - 8 -> 0 <= rounds < 2 ^ 32 -> zlen pub < 2 ^ 32 -> zlen data < 2 ^ 32 ->
+  cipher_known alg = true -> zlist_eqb alg NONE_ = false ->
+  (decrypt alg (kdf alg pass' rounds salt) data mac = None \/
+   exists c1 c2 rest, decrypt alg (kdf alg pass' rounds salt) data mac = Some (c1 ++ c2 ++ rest) /\
+                      length c1 = 4%nat /\ length c2 = 4%nat /\ undigits 256 c1 <> undigits 256 c2) ->
+  openssh_decode params dec_priv cipher_known kdf decrypt
+    (OPENSSH_KEY_V1 ++ sshstring alg ++ sshstring BCRYPT_ ++ sshstring (sshstring salt ++ u32 rounds) ++
+     u32 1 ++ sshstring pub ++ sshstring data ++ mac) (Some pass') = OErr OEncryptionErr.
+Proof.
+  intros params dec_priv ck kdf decrypt.
+  exact (openssh_wrong_passphrase_rejected_partial params (fun _ => []) dec_priv ck (fun _ => 8) kdf
+           (fun _ _ d => (d, [])) decrypt).
+Qed.
+Print Assumptions C15_openssh_wrong_passphrase_rejected_partial.
+
+(* ---- PKCS wrappers ---- *)
+
+(* RFC 1423 padding is removed again, for every block size and data *)
+Theorem C15_rfc1423_roundtrip : forall bs data, 0 < bs -> rfc1423_unpad bs (rfc1423_pad bs data) = Some data.
+Proof. exact rfc1423_unpad_pad. Qed.
+Print Assumptions C15_rfc1423_roundtrip.
+
+(* RSA: PKCS#8 export (PKCS#1 RSAPrivateKey inside an OCTET STRING inside PrivateKeyInfo) followed by
+   the import-side shape checks returns the eight integers, for all integers (of encodable size) *)
+Theorem C15_rsa_pkcs8_roundtrip : forall n e d p q dmp1 dmq1 iqmp,
+  good (rsa_pkcs1_private n e d p q dmp1 dmq1 iqmp) = true ->
+  good (pkcs8_private RSA_OID (Some VNull) (enc (rsa_pkcs1_private n e d p q dmp1 dmq1 iqmp))) = true ->
+  rsa_pkcs8_import (rsa_pkcs8_export n e d p q dmp1 dmq1 iqmp) = Some [n; e; d; p; q; dmp1; dmq1; iqmp].
+Proof. exact rsa_pkcs8_roundtrip. Qed.
+Print Assumptions C15_rsa_pkcs8_roundtrip.
+
 (* non-vacuity: a PKCS#8-shaped tree with an explicit tag, a bit string and a set is [good] *)
 Example C15_good_example :
   good (VSeq [VInt 0; VSeq [VOid [1; 2; 840; 10045; 2; 1]; VOid [1; 2; 840; 10045; 3; 1; 7]];
               VOctets [1; 2; 3]; VTagged 2 1 (VBits 0 [4; 200]); VSet [VBool true; VInt (-129)];
               VUtf8 [195; 169]; VRaw 1 40 [9]]) = true.
 Proof. vm_compute. reflexivity. Qed.
+
+(* non-vacuity of the container theorems: the field layout of ssh-ed25519 (two strings) satisfies the
+   handler premise on a concrete key, and the export of a concrete key is imported back *)
+Example C15_container_example :
+  let enc_priv (p : bytes * bytes) := sshstring [115;115;104] ++ sshstring (fst p) ++ sshstring (snd p) in
+  let dec_priv (b : bytes) :=
+    match get_string b with
+    | Some (_, r) => match get_string r with
+                     | Some (a, r1) => match get_string r1 with Some (c, r2) => Some ((a, c), r2) | None => None end
+                     | None => None end
+    | None => None end in
+  openssh_decode (bytes * bytes) dec_priv (fun _ => false) (fun _ _ _ _ => []) (fun _ _ d _ => Some d)
+    (openssh_encode (bytes * bytes) enc_priv (fun _ => 8) (fun _ _ _ _ => []) (fun _ _ d => (d, []))
+       [1; 2; 3; 4] ([7; 7], [8; 8; 8]) [0; 255; 10; 32] [9] None) None = OOk (([7; 7], [8; 8; 8]), [0; 255; 10; 32]).
+Proof. vm_compute. reflexivity. Qed.
+
+Example C15_rsa_pkcs8_example :
+  rsa_pkcs8_import (rsa_pkcs8_export 3233 17 413 61 53 53 49 38) = Some [3233; 17; 413; 61; 53; 53; 49; 38].
+Proof. vm_compute. reflexivity. Qed.
+
+(* several keys in one file: the first block is returned together with the remaining text, from
+   which the second block is returned *)
+Example C15_two_blocks_example :
+  let b1 := wrap_base64 [1; 2; 3] [80;82;73;86;65;84;69;32;75;69;89] [] false 64 in
+  let b2 := wrap_base64 [4; 5] [82;83;65;32;80;82;73;86;65;84;69;32;75;69;89] [] false 64 in
+  match_next (fun _ => false) (b1 ++ b2) PRIVATE_KEY false = FPem [] [] [1; 2; 3] (NL :: b2) /\
+  match_next (fun _ => false) (NL :: b2) PRIVATE_KEY false = FPem [82; 83; 65] [] [4; 5] [].
+Proof. vm_compute. split; reflexivity. Qed.
